@@ -39,6 +39,9 @@ SRVHARD = dict(pkg="./server", test="TestVerifServerHardLimit", name="srvhard", 
 
 GRPCPROXY = dict(pkg="./cache/grpcproxy", test="TestVerifGrpcProxyRoundTrip", name="grpcproxy", diff=False)
 
+S3PROXY = dict(pkg="./cache/s3proxy", test="TestVerifS3RoundTrip", name="s3proxy", diff=False)
+HTTPPROXY = dict(pkg="./cache/httpproxy", test="TestVerifHTTPProxyRoundTrip", name="httpproxy", diff=False)
+
 COMMON_TB = [
     "goroutine scheduling, sync.Mutex and the file system are modelled (atomic lock regions, process-visible file state), not verified",
 ]
@@ -67,8 +70,8 @@ PROPS = {
         level_text="Theorems on M2 (casblob): for every conformant file (any chunk size, any frames decoding to the chunks) and every offset below the size, both readers return exactly data[offset:] (raw: the bytes; zstd: a stream decoding to them); the writer's output is conformant; readers are total.",
         level_note=NOTE + "codec laws are hypotheses (satisfied by a proved toy instance); the real codecs are exercised by the direct oracle only.", technique=TECH),
     "C20": dict(
-        lean="BR.Props.C20", runs=[BLOB, BLOBREAL], trusted_base=COMMON_TB, assumptions=[],
-        level_text="Header encode/parse round trip and reader conformance theorems on M2; layout constants, file-name shapes and regexps regenerated from the source and compared by Bridge theorems; files from an independent encoder/reader in the harness.",
+        lean="BR.Props.C20", runs=[BLOB, BLOBREAL, S3PROXY, HTTPPROXY], trusted_base=COMMON_TB, assumptions=[],
+        level_text="Header encode/parse round trip and reader conformance theorems on M2; layout constants, file-name shapes and regexps regenerated from the source and compared by Bridge theorems; files from an independent encoder/reader in the harness; objects stored through the real S3 and HTTP back-end clients into in-process servers must appear under the published names for several prefix shapes and read back unchanged.",
         level_note=NOTE + "published layout written once in Lean as the specification.", technique=TECH),
     "C01": dict(
         lean="BR.Props.C01", runs=[BLOB, BLOBREAL, DISK, SRVWRITE], trusted_base=COMMON_TB + ["SHA-256 as an opaque function H; zstd codec as a parameter"],
@@ -80,7 +83,7 @@ PROPS = {
         level_text="Invariant on M4 proved for every sequential history with failures injected at every stage: the regular files are exactly the files of indexed entries plus those queued for removal, each with the recorded length; after draining, directory = index.",
         level_note=NOTE + "concurrent histories via the atomic-lock-region assumption (C07).", technique=TECH),
     "C12": dict(
-        lean="BR.Props.C12", runs=[DISK, GRPCPROXY], trusted_base=COMMON_TB + ["transport code of the concrete back ends (net/http, grpc, minio, azure SDK) is not modelled"],
+        lean="BR.Props.C12", runs=[DISK, GRPCPROXY, S3PROXY, HTTPPROXY], trusted_base=COMMON_TB + ["transport code of the concrete back ends (net/http, grpc, minio, azure SDK) is not modelled"],
         assumptions=["the back end is trusted for content it completely delivers"],
         level_text="Theorems on M4's proxy read-through: a hit carries exactly the back end's bytes with the announced size; every fault (error, not found, short/long stream, wrong or unknown size, oversize) yields a miss or an error, stores nothing and releases the reservation; each accepted upload is forwarded once.",
         level_note=NOTE + "partial: back-end transport libraries outside the model.", technique=TECH),
